@@ -179,6 +179,19 @@ CHECKS = {
             "Probes skip |p| < 1e-3; Gumbel off; ODiMO clauses beyond 'can be evaluated' are not "
             "exercised while its cost raises (known finding).",
             "DESIGN.md 4/C12"),
+    'C07': ("differential / round-trip testing over Hypothesis-generated networks: pre-conversion "
+            "deep copy vs wrapped model vs immediate export vs the caller's object afterwards",
+            "Generated-input search over networks with BatchNorm (non-default statistics, after "
+            "conv/linear and stand-alone), bias-free layers, depthwise, two-input forwards, excluded "
+            "layers, fold_bn on/off, autoconvert on/off, handed over in train or eval mode, for PIT, "
+            "SuperNet and (mode clause) MPS; the oracle is the output of a deep copy taken before "
+            "conversion, the bit-equality of every pre-existing state_dict entry and of the "
+            "parameter set of the caller's object, the architecture of the immediate export and "
+            "the .training flag of every wrapper module. One open known finding (import mode fuses "
+            "BN into the caller's layers) is classified narrowly.",
+            "Tolerance 1e-5 relative; new buffers registered on user-placed layers in import mode "
+            "are tolerated (they are neither parameters nor outputs).",
+            "DESIGN.md 4/C07"),
 }
 
 NOT_YET = "check not built yet in this session; planned with property-based testing per DESIGN.md section 4"
